@@ -420,5 +420,187 @@ def o_mp_mode(p, cfg):
 ORACLES["mp_mode"] = o_mp_mode
 
 
+# ---------------------------------------------------------------------------------------------------
+# one-preemption schedules (C07): thread A is paused at one point, thread B runs to completion
+# ---------------------------------------------------------------------------------------------------
+def _paused_call(pause_install, a_call, b_call):
+    at_point, resume = threading.Event(), threading.Event()
+    res = {}
+    uninstall = pause_install(at_point, resume)
+
+    def ta():
+        res["A"] = outcome(*a_call)
+    t = threading.Thread(target=ta, daemon=True)
+    t.start()
+    reached = at_point.wait(10)
+    try:
+        if reached:
+            done = {}
+
+            def tb():
+                done["B"] = outcome(*b_call)
+            t2 = threading.Thread(target=tb, daemon=True)
+            t2.start()
+            t2.join(5)
+            res["B"] = done.get("B", ("blocked",))
+    finally:
+        resume.set()
+        t.join(10)
+        uninstall()
+    res["reached"] = reached
+    return res
+
+
+def o_race_store_delete(p, cfg):
+    """C07: store_object(p1, X) that finds X present, while delete_object(p2) removes the last
+    reference of X: a store that returned successfully must leave its pid retrievable."""
+    from hashstore.filehashstore import FileHashStore
+    store, props, root = new_store(cfg)
+    content = b"shared content"
+    store.store_object("p2", tmp_input(root, content, "x.bin"))
+    real = FileHashStore._verify_object_information
+    me = threading.current_thread
+
+    def install(at_point, resume):
+        state = {"armed": True}
+
+        def wrapped(self, *a, **k):
+            if state["armed"] and threading.current_thread().name == "A-thread":
+                state["armed"] = False
+                at_point.set()
+                resume.wait(10)
+            return real(self, *a, **k)
+        FileHashStore._verify_object_information = wrapped
+        return lambda: setattr(FileHashStore, "_verify_object_information", real)
+    at_point, resume = threading.Event(), threading.Event()
+    uninstall = install(at_point, resume)
+    res = {}
+
+    def ta():
+        res["A"] = outcome(store.store_object, "p1", tmp_input(root, content, "y.bin"))
+    t = threading.Thread(target=ta, name="A-thread", daemon=True)
+    t.start()
+    reached = at_point.wait(10)
+    if reached:
+        res["B"] = outcome(store.delete_object, "p2")
+    resume.set()
+    t.join(10)
+    uninstall()
+    if not reached:
+        return None, "the pause point was not reached"
+    if res.get("A", ("?",))[0] != "return":
+        return False, f"store_object did not report success: {res.get('A')[1:]}"
+    r = outcome(lambda: store.retrieve_object("p1").read())
+    if r[0] != "return" or r[1] != content:
+        return True, ("store_object(p1) returned successfully while delete_object(p2) removed the "
+                      f"object it had found present; retrieve_object(p1) now gives {r[1:]}")
+    return False, "p1 retrievable after the race"
+
+
+def o_race_tag_delete(p, cfg):
+    """C07: tag_object(p, c) paused between its two renames while delete_object(p) runs:
+    the pair of outcomes must equal that of some sequential order."""
+    import shutil as _sh
+    store, props, root = new_store(cfg)
+    alg = layout.HASHLIB[props["store_algorithm"]]
+    cid = hashlib.new(alg, b"never stored").hexdigest()
+    real_move = _sh.move
+    at_point, resume = threading.Event(), threading.Event()
+    state = {"n": 0}
+
+    def f_move(src, dst, *a, **k):
+        if threading.current_thread().name == "A-thread":
+            state["n"] += 1
+            if state["n"] == 2:
+                at_point.set()
+                resume.wait(10)
+        return real_move(src, dst, *a, **k)
+    _sh.move = f_move
+    res = {}
+
+    def ta():
+        res["A"] = outcome(store.tag_object, "p", cid)
+    t = threading.Thread(target=ta, name="A-thread", daemon=True)
+    t.start()
+    reached = at_point.wait(10)
+    if reached:
+        done = {}
+
+        def tb():
+            done["B"] = outcome(store.delete_object, "p")
+        t2 = threading.Thread(target=tb, daemon=True)
+        t2.start()
+        t2.join(3)
+        res["B"] = done.get("B", ("blocked",))
+    resume.set()
+    t.join(10)
+    if reached and res.get("B") == ("blocked",):
+        # B was correctly made to wait; let it finish now
+        pass
+    _sh.move = real_move
+    if not reached:
+        return None, "the pause point was not reached"
+    a = "ok" if res["A"][0] == "return" else res["A"][1]
+    b = "ok" if res["B"][0] == "return" else (res["B"][1] if len(res["B"]) > 1 else "blocked")
+    sequential = {("ok", "ok"), ("ok", "PidRefsDoesNotExist")}
+    if b == "blocked":
+        return False, "delete_object waited for the tagging to finish"
+    if (a, b) not in sequential:
+        return True, (f"tag_object(p, c) paused between its two renames, delete_object(p) ran: "
+                      f"outcomes (tag={a}, delete={b}) equal no sequential order")
+    return False, f"outcomes (tag={a}, delete={b}) are those of a sequential order"
+
+
+def o_race_delete_all_metadata(p, cfg):
+    """C12: two delete_metadata(pid) (delete-all) calls: neither may fail with an error a
+    sequential run cannot produce."""
+    from hashstore.filehashstore import FileHashStore
+    store, props, root = new_store(cfg)
+    store.store_metadata("p", tmp_input(root, b"<a/>", "a.xml"), "fmt-a")
+    real = FileHashStore._rename_path_for_deletion
+    at_point, resume = threading.Event(), threading.Event()
+    state = {"armed": True}
+
+    def wrapped(path):
+        if state["armed"] and threading.current_thread().name == "A-thread":
+            state["armed"] = False
+            at_point.set()
+            resume.wait(10)
+        return real(path)
+    FileHashStore._rename_path_for_deletion = staticmethod(wrapped)
+    res = {}
+
+    def ta():
+        res["A"] = outcome(store.delete_metadata, "p")
+    t = threading.Thread(target=ta, name="A-thread", daemon=True)
+    t.start()
+    reached = at_point.wait(10)
+    done = {}
+    if reached:
+        def tb():
+            done["B"] = outcome(store.delete_metadata, "p")
+        t2 = threading.Thread(target=tb, daemon=True)
+        t2.start()
+        t2.join(3)
+    resume.set()
+    t.join(10)
+    if reached and "B" not in done:
+        t2.join(10)
+    FileHashStore._rename_path_for_deletion = staticmethod(real)
+    if not reached:
+        return None, "the pause point was not reached"
+    a = "ok" if res["A"][0] == "return" else res["A"][1]
+    b = "ok" if done.get("B", ("?",))[0] == "return" else done.get("B", ("?", "blocked"))[1]
+    if a != "ok" or b != "ok":
+        return True, (f"two concurrent delete_metadata(pid): outcomes (A={a}, B={b}); sequentially "
+                      "both succeed (deleting what does not exist is a silent no-op)")
+    return False, "both delete-alls succeeded"
+
+
+ORACLES["race_delete_all_metadata"] = o_race_delete_all_metadata
+ORACLES["race_store_delete"] = o_race_store_delete
+ORACLES["race_tag_delete"] = o_race_tag_delete
+
+
 if __name__ == "__main__":
     main()
